@@ -953,7 +953,10 @@ class tokenizer(object):
                     if sawdollar and c == "'":
                         pass
                     elif sawdollar and c == '"':
-                        ret = ret[:-2] # back up before the $"
+                        # no locale translation: keep $"..." as written, like
+                        # _readtokenword does (backing up before the $" without
+                        # re-quoting the result dropped the opening $")
+                        pass
 
                     ret += nestret
                 elif arraysub and sawdollar and c in '({[':
